@@ -7,7 +7,7 @@ from wormhole import errors as E
 
 PROP = "C14"
 LEVEL = "exploration"
-QUICK_S = 45
+QUICK_S = 60
 THOROUGH_S = 900
 TECHNIQUE = ("deterministic simulation: seeded search over legal API call "
              "sequences x conformant-server behaviours (dup/reorder/replay, "
